@@ -150,6 +150,18 @@ Proof.
   destruct ty; try discriminate; unfold parse_intrinsic; simpl; rewrite V; reflexivity.
 Qed.
 
+(* The model of a parser instance has no state: ParseSource re-initialises source, token queue
+   and push-back stack on entry, so the outcome of the k-th call on one instance is the
+   outcome of its text alone, whatever was parsed (or rejected) on that instance before. *)
+Definition calls (fparse : list Z -> option Z) (crank : val -> val -> option comparison)
+  (sources : list (list Z)) : list outcome := map (parse_source fparse crank) sources.
+Lemma calls_independent fparse crank before src after :
+  nth (length before) (calls fparse crank (before ++ src :: after)) POutOfFuel = parse_source fparse crank src.
+Proof.
+  unfold calls. rewrite map_app. simpl. rewrite app_nth2; rewrite map_length; [|lia].
+  rewrite Nat.sub_diag. reflexivity.
+Qed.
+
 (* the fixed words and the one-rune tokens, character level *)
 Lemma first_words rest :
   try_types scan_order_t (zs "true" ++ rest) = Some (TBoolean, 4) /\
